@@ -97,7 +97,7 @@ func (p *c08) Components() map[string][]string {
 }
 func (p *c08) Assumptions() []string {
 	return []string{
-		"an adversary request that is a byte-identical copy of a message the honest client of that session already sent, carried by that session's live token, is network duplication and is not judged",
+		"an adversary request that is a copy of a message the honest client of that session already sent (byte-identical, or re-encoded with non-minimal CBOR heads that leave every value unchanged), carried by that session's live token, is network duplication and is not judged",
 		"state-backend methods do not yield in this property, so a request is handled atomically and journalled effects are attributed to exactly one request",
 	}
 }
@@ -272,6 +272,7 @@ func (p *c08) Exec(env *Env, plan any) {
 		node     string
 		token    string
 		bodyHash string
+		sameAs   string // hash of the recorded message whose content this request carries unchanged ("" if altered)
 		resp     int
 		seq      int
 		desc     string
@@ -337,11 +338,15 @@ func (p *c08) Exec(env *Env, plan any) {
 			}
 			body := src.Body
 			desc := fmt.Sprintf("copy-of-seq%d", src.Seq)
+			sameContent := digest(src.Body) // hash of the message this request is a re-encoding of
 			if in.Mutate > 0 {
 				if muts := AllMutations(body); len(muts) > 0 {
 					m := muts[(in.Mutate-1)%len(muts)]
 					body = m.ApplyAny()
 					desc += "+" + m.String()
+					if m.Semantic {
+						sameContent = ""
+					}
 				}
 			}
 			msg := int(src.MsgType)
@@ -486,7 +491,10 @@ func (p *c08) Exec(env *Env, plan any) {
 			if err != nil {
 				rt = -1
 			}
-			ir := &injRec{in: in, msg: msg, node: node, token: tok, bodyHash: digest(body), resp: rt, desc: desc}
+			if in.AsType != 0 {
+				sameContent = ""
+			}
+			ir := &injRec{in: in, msg: msg, node: node, token: tok, bodyHash: digest(body), sameAs: sameContent, resp: rt, desc: desc}
 			// the injected request is the last adversary request in the log
 			for i := len(s.Net.Log) - 1; i >= 0; i-- {
 				if s.Net.Log[i].Phase == "req" && s.Net.Log[i].Adversary {
@@ -590,7 +598,9 @@ func (p *c08) Exec(env *Env, plan any) {
 			either++
 			continue
 		}
-		dup := ir.token != "" && authentic[ir.token][fmt.Sprintf("%d/%s", ir.msg, ir.bodyHash)]
+		// a copy of an authentic message of that session, byte-identical or in
+		// another encoding of the same content, is network duplication
+		dup := ir.token != "" && (authentic[ir.token][fmt.Sprintf("%d/%s", ir.msg, ir.bodyHash)] || (ir.sameAs != "" && authentic[ir.token][fmt.Sprintf("%d/%s", ir.msg, ir.sameAs)]))
 		if dup {
 			if e, isEnded := ended[ir.token]; !isEnded || e > ir.seq {
 				either++
